@@ -44,6 +44,9 @@ CHECKS = {
  "C20": (MC, "TLA+ FileStream/FileModel (handles over a small disk) checked exhaustively by TLC (Balanced, ClosedRefuses, ReadsDisk); every model transition and random histories run on real Files with fopen/fclose interposed; every call validated by TLC (FileTrace) including the C library's own ftell/feof",
          "TLC enumerates all orders of open (four modes, reopen without close), write, read, seek, tell, eof, flush and close (also twice, also after close) over two paths and checks that streams opened and closed balance, that a closed File refuses everything with IOError changing nothing, and that reads return what the disk holds; all transitions plus random histories (patterns with NULs, chunks from 0 to 3*BUFSIZ, seeks from every origin, with-blocks around explicit closes, del, printed integers scanned back) run on real Files, and TLC checks every return value, the bytes read, stell/seof against ftell/feof of every open stream after every call, and the fopen/fclose balance.",
          "seek targets within the file; ISO C repositioning rule between reads and writes obeyed by the generators; one handle per path", "5/C20"),
+ "C11": (MC, "TLA+ Views (Elems of every view expression by structural recursion) and Cursors (the Range/Slice cursor machines of src/Iter.c transcribed) checked by TLC on the complete parameter grid; the grids and random view compositions iterated on the real library; every view validated by TLC (ViewTrace)",
+         "TLC evaluates the cursor machines (init/next/last/prev, len, get, argument clamping, Slice iteration by the Range cursor) against the definitions for every (start, stop, step) in -8..8 and `_` and every underlying length 0..6, including that no position outside the underlying iterable is addressed; the as-found Range_Len / Range_Iter_Last are refuted. The same grids and thousands of random compositions (depth <= 3) of Array, List, Tuple, Table, Tree, Range, Slice/reverse, Zip, enumerate, Filter and Map are iterated forwards and backwards on the real library with len and get(+-i), and TLC recomputes Elems(view) for each and compares; the thorough tier repeats part of it under AddressSanitizer.",
+         "the grid is exhaustive within -8..8 / length 6 only; items are Ints; Zip and Slice need inputs that implement len", "5/C11"),
 }
 
 NOT_YET = {
